@@ -179,11 +179,11 @@ rule('C02.14')(_kept(('core',), _ERRORS + ('Call', 'Invoke', 'TType', 'Path')))
 rule('C02.15')(recorded_as_given)
 rule('C18.13')(recorded_as_given)
 rule('C03.18')(_kept(('core',), ('Coalesce', 'Call', 'Invoke', 'Ref', 'Spec', 'Val', 'Auto', 'Fill', 'Pipe', 'Inspect', 'Let')))
-rule('C04.19')(_kept(('core', 'matching', 'mutation', 'reduction'), _ERRORS + ('MatchError', 'TypeMatchError', 'CheckError', 'PathDeleteError', 'FoldError')))
+rule('C04.19')(_kept(('core', 'matching', 'mutation', 'reduction'), _ERRORS + ('Coalesce', 'MatchError', 'TypeMatchError', 'CheckError', 'PathDeleteError', 'FoldError')))
 rule('C05.16')(_kept(('core', 'matching'), _ERRORS + ('MatchError', 'TypeMatchError', 'CheckError')))
 rule('C07.16')(_kept(('core',), ('Spec', 'Vars', 'ScopeVars', 'Let', 'Ref', 'Glommer', 'Pipe')))
 rule('C08.13')(_kept(('core',), ('Fill', 'Auto', 'Pipe', 'Spec', 'Val')))
-rule('C09.16')(_kept(('matching',), ('Match', 'Regex', 'Optional', 'Required')))
+rule('C09.16')(_kept(('matching',), ('Match', 'Regex', 'Optional', 'Required', '_Bool', 'And', 'Or', 'Not')))
 rule('C10.10')(_kept(('matching',), ('_Bool', 'And', 'Or', 'Not', '_MSubspec', '_MExpr', '_MType', 'Switch', 'Check')))
 rule('C11.15')(_kept(('mutation',), ('Assign',)))
 rule('C12.12')(_kept(('mutation',), ('Delete',)))
@@ -264,3 +264,61 @@ rule('C17.13')(c10.defaults)                        # filter's Check(key, defaul
 rule('C20.23')(c07.own_frame_writes)                # no evaluation writes into the process-wide default scope
 rule('C09.22')(c04.error_construction_is_total)     # a rejection can always be built (and so is a MatchError, not what building it raised)
 rule('C10.16')(c04.error_construction_is_total)
+
+
+# round-8 seeds
+from .common import none_is_a_value
+
+
+def _none_value(*quals):
+    def none_is_a_value_here(ctx):
+        return none_is_a_value(ctx, set(quals))
+    none_is_a_value_here.__doc__ = none_is_a_value.__doc__
+    none_is_a_value_here.__name__ = 'none_is_a_value'
+    return none_is_a_value_here
+
+
+rule('C03.22')(_none_value('core.Coalesce.__init__'))
+rule('C09.23')(_none_value('matching.Match.__init__', 'matching.Optional.__init__'))
+rule('C10.17')(_none_value('matching._Bool.__init__', 'matching.Switch.__init__', 'matching.Check.__init__'))
+rule('C17.14')(_none_value('streaming.Iter.chunked'))
+
+from .common import scope_keys_have_one_definition
+
+
+def _one_def(*names):
+    def scope_keys_here(ctx):
+        return scope_keys_have_one_definition(ctx, set(names) if names else None)
+    scope_keys_here.__doc__ = scope_keys_have_one_definition.__doc__
+    scope_keys_here.__name__ = 'scope_keys_have_one_definition'
+    return scope_keys_here
+
+
+rule('C16.13')(_one_def('CUR_AGG', 'ACC_TREE', 'MODE'))
+rule('C15.14')(_one_def('CUR_AGG', 'ACC_TREE', 'MODE'))
+rule('C07.19')(_one_def())
+rule('C20.24')(_one_def())
+rule('C08.19')(_one_def('MODE', 'MIN_MODE'))
+
+# round-8 seeds: clauses first reported under a sibling property
+from . import c18
+rule('C01.18')(c13.isolation)                   # the access registered for a type is looked up in the registry of the running call only
+rule('C03.23')(c13.register_stores)             # exact=True registrations decide whose iteration a list spec maps over
+rule('C03.24')(c02.argument_context)            # every T operand -- tuple operands included -- is evaluated as an argument
+rule('C04.25')(c09.dispatcher)                  # a type mismatch is a TypeMatchError, a length mismatch a MatchError
+rule('C05.21')(c20.finalisation)                # the wrapper class is built from the class of the error at hand
+rule('C05.22')(c07.own_frame_writes)            # the recorded branch failures are written by the bookkeeping only
+rule('C07.20')(c11.op_dispatch)                 # A.name writes the frame it was evaluated in
+rule('C08.20')(c10.check_default_is_an_argument)
+rule('C09.24')(c10.reflected_operators_keep_operand_order)
+rule('C09.25')(c10.defaults)                    # nested And / Or keep their own default
+rule('C11.21')(c08.cycle_memo)                  # the assigned value's shared / cyclic parts are rebuilt once
+rule('C11.22')(c18.sequence_views)              # an S-rooted destination is re-rooted step kind by step kind
+rule('C12.19')(c13.memo_key)                    # the delete handler memo is keyed by (type, op)
+rule('C12.20')(c01.conversion_and_index)        # a missing parent index under T[...] is a PathAccessError
+rule('C14.18')(c02.argument_context)            # a call step after a wildcard sees the entry it is applied to
+rule('C15.15')(c13.memo_invalidation)           # a registration is seen by the next fold
+rule('C15.16')(c13.register_stores)
+rule('C20.25')(c08.shape_dispatch)              # Fill builds its containers per evaluation, empty ones too
+rule('C13.20')(c06.lookup_is_read_only)
+rule('C20.26')(c06.lookup_is_read_only)
